@@ -593,8 +593,19 @@ fn fam_structure(tier: &str) -> Report {
     for k in 0..opn {
         render(&[Act { op: "|>", deferred: false, wrap: false, operands: vec!["f".into()] }], &format!("({})", operands[k]), &mut r);
     }
+    // 5. operands that are spelled like a handler keyword (a function or closure named `then` / `map` / `and_then`) directly
+    //    followed by the `=>` operator: an operand, not a handler (a handler only ever starts a comma-separated item)
+    for (op1, _, _) in OPS.iter() {
+        if ["<<<", "..", ">.", "^@", "?^@", "<->", "=>[]", "?&!>"].contains(op1) { continue; }
+        if operand_for(op1, 0).len() != 1 { continue; }
+        for kw in ["then", "map", "and_then"] {
+            for d in 0..4 {
+                render(&[Act { op: op1, deferred: d & 1 == 1, wrap: false, operands: vec![kw.to_string()] }, Act { op: "=>", deferred: d & 2 == 2, wrap: false, operands: vec!["|v| Some(v)".to_string()] }], "init()", &mut r);
+            }
+        }
+    }
     r.exhaustive = true;
-    r.notes.push(format!("22 operators x deferred x {} operand shapes; all adjacent pairs x 4 deferred patterns; 10 wrappers x 22 inner operators x 3 closing shapes", opn));
+    r.notes.push(format!("22 operators x deferred x {} operand shapes; all adjacent pairs x 4 deferred patterns; 10 wrappers x 22 inner operators x 3 closing shapes; handler-keyword operands followed by `=>`", opn));
     r
 }
 
